@@ -137,6 +137,17 @@ def gen_program(rng):
                 a = gen_arg([], 0)
                 block += a if (len(a) == 1 and rng.random() < 0.5) else ["{"] + a + ["}"]
         items.append(('call', run, ["{"] + block + ["}"]))
+    elif r < 0.55:
+        # a macro-defining macro whose nested macro is NAMED by one of its parameters (the name slot is substituted like any other)
+        mk, pn, pv = fresh("mkn"), fresh("par"), fresh("par")
+        items.append(('def', mk, [pn, pv], [('def', pn, [], [('db', [pv, ",", str(rng.randrange(1, 90))])])]))
+        made = []
+        for _ in range(rng.randrange(1, 3)):
+            nm = fresh("made")
+            items.append(('call', mk, [nm, ",", str(rng.randrange(1, 90))]))
+            made.append(nm)
+        for nm in made + made[:1]:
+            items.append(('call', nm, []))
     elif r < 0.65:
         # a global label defined by the expansion (named by an argument, or literally in the body) opens the scope for the
         # local labels written after the call, exactly as if it had been written at the call site
